@@ -857,6 +857,13 @@ TOP:
 					p.Elem().Set(args[0])
 					args[0] = p
 				}
+				if !args[0].Type().AssignableTo(recv) {
+					// A value of another Go type than the one the GraphQL
+					// type is bound to. The method is not its method.
+					ea = append(ea, resWarn(field.line, field.col,
+						"%s is bound to %s, %T can not be resolved as a %s", t.Name(), recv, obj, t.Name()))
+					break
+				}
 			}
 			verifPoint("rr_call", fd)
 			mva := method.Call(args)
